@@ -18,7 +18,11 @@ extern "C" int LLVMFuzzerTestOneInput(const uint8_t* data, size_t size) {
   std::string bytes(reinterpret_cast<const char*>(data), size);
   if (size > 65536) return 0;
   if (tzg::declared_alloc(bytes) > (64LL << 20)) return 0;
-  if (getenv("VERIF_PRINT_CLASS")) fprintf(stderr, "INPUT-CLASS: %s\n", input_class(bytes).c_str());
+  const std::string cls = input_class(bytes);
+  if (getenv("VERIF_PRINT_CLASS")) fprintf(stderr, "INPUT-CLASS: %s\n", cls.c_str());
+  // the known finding D8 (ancient seam) would end every fuzz job at its first hit: it is kept under observation by the
+  // mutator leg of the monitor instead, and excluded here so that the fuzzer explores everything else
+  if (cls == "H-ancient-seam") return 0;
   const std::string name = "V/F/fuzz";
   zsrc::put(name, bytes);
   std::unique_ptr<cctz::TimeZoneIf> z = cctz::TimeZoneIf::Make(name);
